@@ -145,11 +145,12 @@ def cubic_bspline2d(
     if dtype is None:
         dtype = torch.float
     stride_ = cat_scalars(stride, *args, num=2, dtype=torch.int32, device=torch.device("cpu"))
-    kernel = torch.ones((4 * stride_ - 1).tolist(), dtype=dtype)
-    radius = [n // 2 for n in kernel.shape]
-    for j in range(kernel.shape[1]):
+    stride = stride_.tolist()  # (sx, sy)
+    kernel = torch.ones((4 * stride_ - 1).flip(0).tolist(), dtype=dtype)  # tensor dimensions (Y, X)
+    radius = [n // 2 for n in reversed(kernel.shape)]
+    for j in range(kernel.shape[0]):
         w_j = cubic_bspline_value((j - radius[1]) / stride[1], derivative=derivative)
-        for i in range(kernel.shape[0]):
+        for i in range(kernel.shape[1]):
             w_i = cubic_bspline_value((i - radius[0]) / stride[0], derivative=derivative)
             kernel[j, i] = w_i * w_j
     if device is None:
@@ -177,13 +178,14 @@ def cubic_bspline3d(
     if dtype is None:
         dtype = torch.float
     stride_ = cat_scalars(stride, *args, num=3, dtype=torch.int32, device=torch.device("cpu"))
-    kernel = torch.ones((4 * stride_ - 1).tolist(), dtype=torch.float)
-    radius = [n // 2 for n in kernel.shape]
-    for k in range(kernel.shape[2]):
+    stride = stride_.tolist()  # (sx, sy, sz)
+    kernel = torch.ones((4 * stride_ - 1).flip(0).tolist(), dtype=torch.float)  # tensor dimensions (Z, Y, X)
+    radius = [n // 2 for n in reversed(kernel.shape)]
+    for k in range(kernel.shape[0]):
         w_k = cubic_bspline_value((k - radius[2]) / stride[2], derivative=derivative)
         for j in range(kernel.shape[1]):
             w_j = cubic_bspline_value((j - radius[1]) / stride[1], derivative=derivative)
-            for i in range(kernel.shape[0]):
+            for i in range(kernel.shape[2]):
                 w_i = cubic_bspline_value((i - radius[0]) / stride[0], derivative=derivative)
                 kernel[k, j, i] = w_i * w_j * w_k
     if device is None:
